@@ -165,5 +165,15 @@ fn main() {
             }
         }
     }
+    // very large arcs and sectors (the truncated 1/1024 border directions are off by several pixels at this radius)
+    for (d, a0, sw, w) in [(5716u32, 100i32 * 16, 1419i32, 11u32), (8001, -37 * 16, 2011, 3), (6400, 200 * 16 + 5, -1111, 1), (7000, 45 * 16, 16 * 90 + 7, 20)] {
+        for kind in ["arc", "sector"] {
+            if !th && kind == "sector" && d > 6000 {
+                continue;
+            }
+            let shape = json!({"k":kind,"tl":[-2500, -2600],"d":d,"a0":a0,"sw":sw});
+            run_case(&mut rec, &json!({"d": {"kind":"prim","shape":shape,"style":style_desc(-1, col.stroke, w, (d % 3) as u32)}, "ct": "Rgb565"}));
+        }
+    }
     rec.finish(json!({}));
 }
